@@ -12,8 +12,8 @@ DY_COST = [0.0, 0.25, 1.0, 2.0, 2.5, 10.0]
 DEC_WORK = [0.0, 0.1, 0.3, 0.7, 1.0, 1.1, 2.0, 2.5, 3.3]
 DEC_SKILL = [0.1, 0.3, 0.7, 1.0, 1.1]
 DEC_COST = [0.0, 0.1, 1.0, 3.3, 7.7]
-SIZES = [0.5, 1.0, 1.0, 1.0, 2.0]
-CAPS = [0.0, 0.5, 1.0, 1.0, 1.5, 2.0, 3.0]
+SIZES = [0.5, 1.0, 1.0, 1.0, 2.0, 1.0, 1.0, 0.5, 2.0, 0.0]
+CAPS = [0.0, 0.5, 1.0, 1.0, 1.5, 2.0, 3.0, 1.0, 2.0, float("inf")]
 N_TASK_W = [(1, 4), (2, 14), (3, 20), (4, 20), (5, 16), (6, 11), (7, 8), (8, 7)]
 
 
@@ -65,6 +65,9 @@ def gen_profile(rng, focus=None):
     p["sd_zero"] = rng.random() < 0.2  # explicit standard-deviation entries of 0.0 (deterministic skills, other code path)
     p["empty_team"] = rng.random() < 0.06  # a team without workers
     p["assign_list"] = rng.random() < 0.15  # workflow built with `wf.task_list = [...]` (parent_workflow set lazily)
+    p["int_kinds"] = rng.random() < 0.1  # dependency kinds given as the plain integers 0..3 (what the saved format holds)
+    p["late_register"] = rng.random() < 0.12  # some tasks are registered in the workflow before they are linked, others after
+    p["wp_ctor_inputs"] = rng.random() < 0.25  # conveyor links handed to the workplace constructor (one-sided: no output lists)
     p.update(focus)
     if not p["comps"]:
         p["facilities"] = p["nested"] = p["conveyor"] = False
@@ -286,6 +289,16 @@ def gen_model(rng, p, n_tasks=None):
         order = list(range(n))
         rng.shuffle(order)
         m["order"] = order
+    if p.get("int_kinds"):
+        m["int_kinds"] = True
+    if p.get("wp_ctor_inputs") and any(wp.get("inputs") for wp in wps):
+        m["wp_ctor_inputs"] = True
+    if p.get("late_register") and n > 1 and not m.get("assign_list"):
+        late = [i for i in range(n) if rng.random() < 0.4]
+        if late and len(late) < n:
+            order = m.get("order") or list(range(n))
+            m["order"] = [i for i in order if i not in late] + [i for i in order if i in late]
+            m["late_register"] = late
     return m
 
 
@@ -419,10 +432,29 @@ def gen_feasible(rng, p):
             w["skills"][t["id"]] = rng.choice(SKILL)
             if t.get("fixw") is not None:
                 t["fixw"] = sorted(set(t["fixw"]) | {w["id"]})
+    if p.get("all_auto"):
+        # a project of automatic work only, in an organisation without a single worker
+        for t in tasks:
+            t["auto"] = True
+            t.setdefault("rate", rng.choice(SKILL))
+            t.pop("fixw", None)
+            t.pop("comp", None)
+        m["teams"] = [{"id": "m0", "targets": [i for i in range(len(tasks)) if rng.random() < 0.5], "workers": []}]
+    if p.get("auto_private_wp"):
+        # automatic tasks that work on a component of their own, in a workplace of their own that can always take it
+        for i, t in enumerate(tasks):
+            if t.get("auto") and rng.random() < 0.6:
+                size = rng.choice(SIZES)
+                m["comps"].append({"id": "c%d" % len(m["comps"]), "size": size, "children": []})
+                t["comp"] = len(m["comps"]) - 1
+                k = len(m["wps"])
+                m["wps"].append({"id": "p%d" % k, "cap": rng.choice([size, size + 1.0, float("inf")]), "targets": [i], "inputs": [],
+                                 "facs": [{"id": "f%d" % k, "skills": {t["id"]: rng.choice(SKILL)}, "cost": rng.choice(COST)}]})
     if m.get("reg_order"):
-        reg = [["team", i] for i in range(len(m["teams"]))]
+        reg = [["team", i] for i in range(len(m["teams"]))] + [["wp", i] for i in range(len(m["wps"]))]
         rng.shuffle(reg)
         m["reg_order"] = reg
+    m.pop("wp_ctor_inputs", None)
     for tm in m["teams"]:
         tm.pop("ctor_targets", None)  # the feasibility construction edits team targets after the fact; keep them two-sided
     return m
@@ -459,6 +491,7 @@ def append_task(m, task, rng=None):
     m["tasks"].append(task)
     i = len(m["tasks"]) - 1
     if m.get("order"):
-        pos = rng.randint(0, len(m["order"])) if rng is not None else len(m["order"])
+        hi = len(m["order"]) - len(m.get("late_register") or [])  # stays in the block of tasks registered before linking
+        pos = rng.randint(0, hi) if rng is not None else hi
         m["order"].insert(pos, i)
     return i
